@@ -47,10 +47,10 @@ func pypiFinalNonZero(s string) bool {
 
 func ecos() []eco {
 	return []eco{
-		{name: "npm", sys: semver.NPM, rsys: resolve.NPM, genRange: gen.PadSpace(gen.SameLower(gen.NPMRange, " ")), genCand: func(r *rand.Rand) string { return gen.SemFull(r, true) },
+		{name: "npm", sys: semver.NPM, rsys: resolve.NPM, genRange: gen.PadSpace(gen.BothPrerelease(gen.SameLower(gen.NPMRange, " "), " ")), genCand: func(r *rand.Rand) string { return gen.SemFull(r, true) },
 			adapter: ref.Node, minN: 3, maxN: 3, pre: []string{"-0", "-alpha", "-rc.1"},
 			selftest: [][2]string{{ref.Q("sat", "^1.2.3", "1.9.0"), "1"}, {ref.Q("sat", "^1.2.3", "2.0.0"), "0"}, {ref.Q("sat", ">=1.0.0 <2.0.0 || 3.x", "3.4.5"), "1"}, {ref.Q("sat", "1.2.3 - 2", "2.9.9"), "1"}, {ref.Q("sat", "~1.2", "1.3.0"), "0"}, {ref.Q("sat", "not a range", "1.0.0"), "ER"}}},
-		{name: "cargo", sys: semver.Cargo, genRange: gen.PadSpace(gen.SameLower(gen.CargoReq, ", ")), genCand: func(r *rand.Rand) string { return gen.SemFull(r, true) },
+		{name: "cargo", sys: semver.Cargo, genRange: gen.PadSpace(gen.BothPrerelease(gen.SameLower(gen.CargoReq, ", "), ", ")), genCand: func(r *rand.Rand) string { return gen.SemFull(r, true) },
 			adapter: ref.Rust, minN: 3, maxN: 3, pre: []string{"-0", "-alpha", "-rc.1"},
 			selftest: [][2]string{{ref.Q("sat", "1.2.3", "1.9.0"), "1"}, {ref.Q("sat", "1.2.3", "2.0.0"), "0"}, {ref.Q("sat", ">=1.0.0, <2.0.0", "1.4.5"), "1"}, {ref.Q("sat", "~1.2", "1.3.0"), "0"}, {ref.Q("sat", "0.0", "0.0.7"), "1"}}},
 		{name: "pypi", sys: semver.PyPI, rsys: resolve.PyPI, genRange: gen.PadSpace(gen.PyPISpec), genCand: gen.PyPIFinal,
